@@ -359,6 +359,11 @@ func (i Interval) Expanded(margin float64) Interval {
 		// than the 2*dblEpsilon it allows for).
 		return FullInterval()
 	}
+	if margin < 0 && !i.ContainsInterval(result) {
+		// Likewise when shrinking: the rounded endpoints crossed, so the
+		// exact result is empty to within rounding.
+		return EmptyInterval()
+	}
 	return result
 }
 
